@@ -56,7 +56,28 @@ reg(Prop('C06', lambda r, i, t: pc.gen_item_C06(r, i, t, 'C06'), pc.eval_C06, 50
          ['C06_label_iff', 'C06_unlabelled_iff', 'C06_indices_own', 'C06_indices_subtree', 'C06_npix_subtree', 'C06_vmax_add', 'C06_vmin_add', 'C06_vmax_merge', 'C06_vmin_merge', 'C06_vmax_is_max', 'C06_vmin_is_min', 'C06_peak_own', 'C06_peak_subtree']))
 
 HOOK_COMMITS = ['15057e9']
-LEVEL_TEXT = {}
+LEVEL_TEXT = {
+ 'C01': "Lean theorems for every environment, order and criterion: the loop assigns each processed pixel to exactly one structure (C01_run_partition), after the whole of compute a pixel is assigned iff processed and not in a dropped parentless leaf, which is dropped as a whole (C01_assigned_iff, C01_dropped_whole, C01_assigned_once); the default threshold lies below the minimum (repaired; the old wrap-around is proved as a witness). Tied to the code by running Dendrogram.compute and the model on the recorded pixel order and comparing partition and assigned mask; an independent predicate recomputes the clause on the real output.",
+ 'C02': "Forest shape is by construction of the model's inductive Tree (the harness checks pointers and child lists are two views of one forest on the real objects); proved: branches have >= 2 children, iteration = prefix order with parents first, identifiers distinct and 0..N-1 after relabelling; after prune (C07_*) and load (C09_reload_*); level / ancestor / descendants agree with links for every history (C14_history_sound). Correspondence after compute, prune with warm-up queries, and load.",
+ 'C03': "Proved for any symmetric adjacency, any criteria, ties allowed: every structure is connected, roots are mutually non-adjacent and are exactly the connected components (C03_trunk_eq_components), outside neighbours of a parented structure are no brighter than any of its pixels (C03_contour), without pruning branch pixels lie below substructures; all grid adjacencies are symmetric (C17_grid_symmetric).",
+ 'C04': "The model's step IS the documented construction; its rules are stated outright as theorems, and uniqueness for distinct values is proved. The check compares own pixels and parent relation of the real result with the model run on the SAME recorded order: a disagreement is a failing input of the property. Thorough tier enumerates all value orderings on grids of <= 9 pixels and all 3-letter arrays (1,976,604 cases).",
+ 'C05': "Proved: every child passed the significance test at the creating pixel of its parent, which is the brightest outside neighbour; parentless leaves pass the value-less criteria; and without pruning the leaves are in bijection with the plateau-aware regional maxima (C05_leaf_peak_regmax, C05_leaves_distinct_maxima, C05_regmax_has_leaf), ties allowed.",
+ 'C06': "Proved for every well-formed forest (hence computed, pruned and loaded ones, P30 glue): label map names the unique owner, both subtree modes of the tree-index slices are exactly own pixels / region, subtree counts, incremental = derived min/max, peaks attain the maximum inside the region. Accessors of the real objects compared with the model and with data + label map.",
+ 'C07': "Proved for arbitrary criteria functions: the loop reaches a fixpoint where every leaf passes, regions / identifiers / pixels preserved, parent = nearest surviving former ancestor, own-pixel transfer, arity and distinct ids preserved, idempotence, no-op, parameter bookkeeping. Histories of 1-4 prunes with warm-up queries compared with the model after every step.",
+ 'C08': "False of the code for min_delta (known finding K1, proved by witness); proved: for min_npix the property holds of the code as it is for every input (C08_npix), and with the original-merge-level rule it holds for min_delta and min_npix together (C08_full) - that rule is the arbiter used to classify K1, so any other deviation is still reported.",
+ 'C09': "Proved: the implementation's level-by-level Newick parser (modelled step by step) and a reference parser invert the writer (all forests, distinct ids), the encoding is injective, ids and %.3f heights are well formed, regrouping from the label map is right, a save/load cycle preserves ids, children and their order, own pixel sets, label map; format identification by extension / signature with disjoint tables. Container libraries are trusted; real FITS/HDF5 round trips are compared field by field.",
+ 'C10': "Proved over exact rationals: mom0/1/2 are sum, weighted mean, weighted covariance (symmetric, positive semi-definite), direction length/sign invariance, basis directions, translation laws, eigenvalue ordering bookkeeping, and transparency of the memoize wrapper for every call history. The eigen-solver is a contract checked numerically on every run.",
+ 'C11': "Proved: independence of the declared velocity axis under transposition, non-negativity of trace / determinant / v_rms^2 (Cauchy-Schwarz) so sigmas are real, non-negative, ordered; re-embedding of sky axes (repaired; old defect as witness). sqrt / atan2 / eigh are outside the model: sum and product of squared sigmas are compared, position angle is checked numerically.",
+ 'C12': "Proved: rows are one per structure, sorted by identifier, each the statistic of that structure alone; the edge-wrap heuristic never widens, moves by whole periods only, is a no-op on intervals (non-periodic data) and on narrow structures, and unwraps straddling ones. Catalogs of real dendrograms compared row by row; shift invariance on periodic data.",
+ 'C13': "Proved for arbitrary constants: additivity, linearity, unit invariance, output unit, Rayleigh-Jeans factor with beam cancellation, and the whole error table (a number iff family supported, required items present and well-dimensioned, output a flux density). Astropy's unit engine is trusted; results compared with exact rationals and with the textbook formula.",
+ 'C14': "Proved on an object-heap model mirroring the cache code assignment by assignment: for every history of cached queries and prunes every observation equals the one computed from the live links (C14_history_sound); the code before the repair is proved stale by witnesses. Every history is mirrored query by query on the heap model (answers and cache fill state) and compared with a dendrogram rebuilt from links, label map and data.",
+ 'C15': "Definitional in the model (compute is a function); proved: the repaired significance test is width-free, the old one was not (witness); determinism for distinct values. The check runs every case as repeat / verbose / layouts / dtypes / after a prelude and requires identical results equal to the model. Known finding K4: with ties the unstable, dtype-specific argsort makes the result depend on the dtype.",
+ 'C16': "Proved: the whole pixel loop is equivariant under any pixel renaming preserving adjacency and any order-preserving value map (C16_run_equivariant), instantiated for arbitrary axis permutations, flips, unit axes, padding, affine maps with the built-in criteria; threshold restriction for distinct values without pruning.",
+ 'C17': "Proved: characterisation of the periodic adjacency on one axis and in coordinates (wraps exactly on declared axes, lengths 1 and 2 included), symmetry, shift automorphism, and shift invariance of the whole run (C17_shift_invariance).",
+ 'C18': "Proved: stable sorting by key in both directions, leaves at distinct positions below the leaf count, every structure's leaves contiguous, branch between its outermost children, line geometry and mapping. Positions (exact rationals) and all segments compared with the model, incl. all 625 forest shapes <= 7 nodes in the thorough tier; Matplotlib is trusted to draw what it is given.",
+ 'C19': "Proved on a state-machine model of hub and viewers: click / pick / lasso semantics, slot independence, exactly-once notification, highlighted lines = selection with descendants, mask = region, scatter rows round trip. A head-less Agg viewer with linked Scatter is driven with synthetic events and compared after every event. Partial: rendering and GUI event delivery are Matplotlib's.",
+ 'C20': "Proved: the specified relation stated outright, canonical label form equal iff same partition, symmetry, reflexivity; the operator as implemented characterised exactly and proved to ignore the other operand's structures (known finding D10, not repairable without breaking 6 pinned tests). The real == is compared with the Lean eqD on every pair; deviations other than D10 are reported.",
+}
 LEVEL_NOTE = {}
 PENDING_REASON = {}
 
